@@ -420,6 +420,10 @@ def load_findings():
 
 
 # ---------------------------------------------------------------- context
+class EscalationBudget(Exception):
+    """the wall-clock cap of the escalated search pass is used up (not an error)"""
+
+
 class Ctx:
     def __init__(self, mod, tier, seed):
         self.mod = mod
@@ -440,10 +444,19 @@ class Ctx:
         self.findings = [f for f in load_findings() if f.get('property') == self.pid]
         self.extra = {}
         self.model_cases = 0
+        self.escalated = False     # set by ./check when the anchored source differs from source_pins.json
+        self.deadline = None
 
     @property
     def thorough(self):
-        return self.tier == 'thorough'
+        return self.tier == 'thorough' or self.escalated
+
+    def escalate(self, budget_s):
+        """second pass after a source drift: thorough-tier generators, fresh random state, wall-clock cap"""
+        self.escalated = True
+        self.rng = random.Random((self.seed + 1) * 1000003 + int(self.pid[1:]) + 17)
+        self.nprng = np.random.RandomState(((self.seed + 1) * 7919 + int(self.pid[1:]) + 17) % (2 ** 31))
+        self.deadline = time.time() + budget_s
 
     def scale(self, quick, thorough):
         return thorough if self.thorough else quick
@@ -453,6 +466,8 @@ class Ctx:
 
     def case(self, case, nontrivial=True, sample_every=0):
         """register one explored case"""
+        if self.deadline is not None and time.time() > self.deadline:
+            raise EscalationBudget()
         self.evaluations += 1
         if nontrivial:
             self.nontrivial.add(jhash(case))
